@@ -737,7 +737,7 @@ def judge(prop, prog, impl, model, monline):
     spec = PROPS[prop]
     agree = True
     where = ""
-    if impl.startswith("(panic") and prop != "C13":
+    if impl.startswith(("(panic", "(missing")) and prop != "C13":
         # a panicking run is outside the domain of every property but C13 ("on which the analysis
         # terminates"); C13 is the property that judges it
         return {"agree": True, "where": "", "monitor": None}
